@@ -19,6 +19,9 @@ type (
 	ArrV struct {
 		T Term
 		N int64
+		// ElemT: Go element type, when known and structured (spec-function parameters and
+		// binders declared as []T): indexing then yields a typed value instead of a bare term
+		ElemT types.Type
 	}
 	// SliceV is a view on a region cell.
 	SliceV struct {
